@@ -29,6 +29,8 @@ def gen_cases(tier, seed):
     fams = ['model', 'model', 'writer', 'truncated', 'marker']
     for i in range(N[tier]):
         yield {'fam': fams[i % 5], 's': seed * 1000003 + i}
+    for i in range(max(4, N[tier] // 200)):
+        yield {'fam': 'big-metadata', 's': seed * 1000003 + i}
 
 
 def shard_setup(ctx):
@@ -54,6 +56,18 @@ def build(case, ctx):
             data, idx, shadow, log = WP.run_program(prog, nptdms, ctx.tmpdir)
             if data and idx:
                 return data, idx, ('writer', len(data)), prog.describe(), True
+    if case['fam'] == 'big-metadata':
+        # an index file of more than 1 MiB (block-size thresholds): one property value of 1-3 MiB in an early segment
+        segs = M.gen_file(rng, max_segs=6, max_chans=3, p_pad=0.2, p_nometa=0.25)
+        while len(segs) < 3:
+            segs = M.gen_file(rng, max_segs=6, max_chans=3, p_pad=0.2, p_nometa=0.25)
+        host = next(s for s in segs if s.has_meta)
+        p0 = host.listing[0][0] if host.listing else None
+        size = rng.choice([1 << 20, (1 << 20) + 1, 3 << 19, rng.randrange(1 << 20, 3 << 20)])
+        if p0 is not None:
+            host.props.setdefault(p0, []).append(('big_blob', 'str', 'x' * size))
+        blob, idx, lay = M.encode_file(segs)
+        return blob, idx, ('big-metadata', size) + tuple(s.signature() for s in segs), {'big_property_bytes': size, 'segments': len(segs)}, True
     segs = M.gen_file(rng, max_segs=7, max_chans=4, p_pad=0.35, p_nometa=0.25)
     marker = case['fam'] == 'marker'
     if marker:
